@@ -150,6 +150,8 @@ Player(prior, s2ij, agg, od, kappa, limit) ==
       s     == RSqrt(s2ij)                               \* inflated sigma
       mu    == prior.mu ++ (share ** od.omega)
       tmu   == (Rel ** (RAbs(prior.mu) ++ (share ** RAbs(od.omega)))) ++ R2(share ** od.ob)
+      \* accuracy of the STEP alone (what the zero-sum identity is about): relative to the step, not to the rating
+      tstep == (Rel ** (share ** RAbs(od.omega))) ++ R2(share ** od.ob)
       sd    == share ** od.delta
       sb    == (share ** od.db) ++ (Ulp4 ** ("1" ++ RAbs(sd)))
       x     == "1" -- sd
@@ -159,7 +161,7 @@ Player(prior, s2ij, agg, od, kappa, limit) ==
       tsg   == (Rel ** sg) ++ RMax(hi -- sg, sg -- lo)
       clamp == limit /\ RLt(prior.sigma, sg)
   IN  [mu |-> mu, sigma |-> IF clamp THEN prior.sigma ELSE sg,
-       tmu |-> tmu, tsigma |-> tsg,
+       tmu |-> tmu, tstep |-> tstep, tsigma |-> tsg,
        floor |-> RLeq(x, kappa), clamp |-> clamp, guard |-> od.g,
        dmu |-> share ** od.omega, s2 |-> s2ij]
 
